@@ -1518,6 +1518,17 @@ func (pc *PartitionContext) removeAllocation(release *si.AllocationRelease) ([]*
 				zap.String("nodeID", alloc.GetNodeID()))
 			continue
 		}
+		// the replacement was unlinked while the shim was releasing the placeholder (the node of the replacement
+		// was removed): nothing replaces the placeholder, handle the confirmation as a normal removal
+		if release.TerminationType == si.TerminationType_PLACEHOLDER_REPLACED && !alloc.HasRelease() {
+			if node.RemoveAllocation(alloc.GetAllocationKey()) != nil {
+				total.AddTo(alloc.GetAllocatedResource())
+			}
+			if alloc.IsPreempted() {
+				totalPreempting.AddTo(alloc.GetAllocatedResource())
+			}
+			continue
+		}
 		if release.TerminationType == si.TerminationType_PLACEHOLDER_REPLACED {
 			confirmed = alloc.GetRelease()
 			// we need to check the resources equality
